@@ -227,8 +227,7 @@ def w_rewrite_str(s, counts):
 
 
 W_PREFIX_RULES = [
-    ('W.is_nfc', re.compile(r'\bunicode_normalization::is_nfc\('), 'vx_is_nfc('),
-    ('W.is_nfkc', re.compile(r'\bunicode_normalization::is_nfkc\('), 'vx_is_nfkc('),
+    ('W.un', re.compile(r'\bunicode_normalization::(?=\w+\()'), 'crate::vx::un::'),
 ]
 
 DROP_ATTR_RX = re.compile(r'^\s*#\[(inline|allow\(|doc|must_use|cfg_attr)[^\n]*\]\s*$')
